@@ -337,6 +337,7 @@ class PolarizationCalibrationType(Serializable):
     """The polarization calibration"""
     _fields = ('DistortCorrectApplied', 'Distortion')
     _required = _fields
+    _tag_override = {'DistortCorrectApplied': 'DistortCorrectionApplied'}
     # descriptors
     DistortCorrectApplied = BooleanDescriptor(
         'DistortCorrectApplied', _required, strict=DEFAULT_STRICT,
